@@ -243,7 +243,140 @@ def case_N(c):
         F.clean()
 
 
-FAM = {"A": case_A, "B": case_B, "N": case_N}
+FWD = {
+    # how Mid hands its own parameters (m0, m1[, m2]) on to Inner's parameters (x, y[, z])
+    2: {"straight": lambda m: (P(m[0]), P(m[1])), "crossed": lambda m: (P(m[1]), P(m[0])), "same": lambda m: (P(m[0]), P(m[0])),
+        "expr": lambda m: (B("*", N("2"), P(m[0])), B("+", P(m[0]), P(m[1]))), "const-mix": lambda m: (P(m[1]), N("0.5")),
+        "numeric": lambda m: (N("0.25"), N("3")), "crossed-expr": lambda m: (B("-", P(m[1]), N("1")), U("-", P(m[0])))},
+    3: {"straight": lambda m: (P(m[0]), P(m[1]), P(m[2])), "cycle": lambda m: (P(m[1]), P(m[2]), P(m[0])), "cycle2": lambda m: (P(m[2]), P(m[0]), P(m[1])),
+        "swap01": lambda m: (P(m[1]), P(m[0]), P(m[2])), "swap02": lambda m: (P(m[2]), P(m[1]), P(m[0]))},
+}
+MID_NAMES = {2: [("x", "y"), ("y", "x"), ("u", "v"), ("y", "w")], 3: [("x", "y", "z"), ("z", "x", "y"), ("u", "v", "w")]}
+MAIN_KINDS = ["numeric", "template", "template-crossed", "template-same-names-crossed", "inner-direct-crossed"]
+
+
+def case_F(c):
+    """parameter forwarding through two levels of templates: main -> Mid(m...) -> Inner(x, y[, z])"""
+    base, k, fwd, mid_names, main_kind = c
+    F = Files(_dir(base))
+    try:
+        inner_names = ("x", "y", "z")[:k]
+        inner_items = [("stmt", "I1", [P("x")], [], [N("1")], "none"),
+                       ("stmt", "I2", [P("y")], [("k", B("-", P("x"), B("*", N("3"), P("y"))))], [N("1"), N("0")], "sq")]
+        if k == 3:
+            inner_items.append(("stmt", "I3", [B("+", B("*", P("z"), N("4")), P("x"))], [], [N("0")], "none"))
+        inner = dict(name="Inner", version="1.0", items=inner_items)
+        es = FWD[k][fwd](mid_names)
+        mid_items = [("stmt", "M0", [P(mid_names[0])], [], [N("0")], "none"),
+                     ("stmt", "Inner", [], list(zip(inner_names, es)), [N("2"), N("5")], "sq")]
+        for j, mn in enumerate(mid_names[1:]):
+            mid_items.append(("stmt", "M%d" % (j + 1), [B("*", P(mn), N("3"))], [], [N("5")], "none"))
+        mid = dict(name="Mid", version="1.0", includes=["inner.xbb"], items=mid_items)
+        vals = ("0.5", "-2", "7")[:k]
+        if main_kind == "numeric":
+            kw = [(mn, num(v)) for mn, v in zip(mid_names, vals)]
+        elif main_kind == "template":
+            kw = [(mn, P(a)) for mn, a in zip(mid_names, ("a", "b", "c"))]
+        elif main_kind == "template-crossed":
+            kw = [(mn, P(a)) for mn, a in zip(mid_names, ("b", "c", "a")[:k] if k == 3 else ("b", "a"))]
+        elif main_kind == "template-same-names-crossed":
+            rot = mid_names[1:] + mid_names[:1]
+            kw = [(mn, P(a)) for mn, a in zip(mid_names, rot)]
+        else:
+            kw = [(mn, num(v)) for mn, v in zip(mid_names, vals)]
+        items = [("stmt", "Mid", [], kw, [N("7"), N("3"), N("4")], "sq")]
+        if main_kind == "inner-direct-crossed":
+            rot = inner_names[1:] + inner_names[:1]
+            items.append(("stmt", "Inner", [], [(n_, P(r_)) for n_, r_ in zip(inner_names, rot)], [N("1"), N("0")], "sq"))
+            items.append(("stmt", "Mid", [], [(mn, num(v)) for mn, v in zip(mid_names, vals[::-1])], [N("3"), N("7"), N("4")], "sq"))
+        main = dict(name="M", version="1.0", includes=["mid.xbb"], items=items)
+        lib = {"mid.xbb": mid, "inner.xbb": inner}
+        F.write("inner.xbb", lang.render(inner))
+        F.write("mid.xbb", lang.render(mid))
+        mp = F.write("main.xbb", lang.render(main))
+        os.chdir(F.root)
+        r = judge(main, lib, mp)
+        return None if r is None else ("C07/forwarding-%s" % r[0], "k=%d fwd=%s mid=%s main=%s: %s" % (k, fwd, ",".join(mid_names), main_kind, r[1]))
+    finally:
+        os.chdir("/")
+        F.clean()
+
+
+GRAPHS = ["diamond", "diamond-direct", "util-then-a", "a-then-util", "b-includes-a", "diamond-spellings", "same-string-different-files", "three-levels-shared-leaf"]
+
+
+def case_D(c):
+    """include graphs that are not chains: a file reached along several paths"""
+    base, graph, np_, cwdsel, argstyle = c
+    F = Files(_dir(base))
+    try:
+        util = sub_ast("Util", [1, 0], np_)
+        ucall = lambda modes, v="0.25": call("Util", np_, modes, (v, "3"))
+        a = dict(name="Aa", version="1.0", includes=["util.xbb"], items=[("stmt", "P", None, [], [N("3")], "none"), ucall([3, 2]), ("stmt", "Q", [N("1")], [], [N("2")], "none")])
+        b = dict(name="Bb", version="1.0", includes=["util.xbb"], items=[ucall([0, 1], "-1.5"), ("stmt", "R", None, [], [N("1")], "none")])
+        acall = ("stmt", "Aa", None, [], [N("4"), N("5")], "sq")
+        bcall = ("stmt", "Bb", None, [], [N("6"), N("7")], "sq")
+        files = {}
+        lib = {}
+        if graph in ("diamond", "diamond-direct"):
+            files = {"a.xbb": a, "b.xbb": b, "util.xbb": util}
+            incs = ["a.xbb", "b.xbb"]
+            items = [acall, bcall, acall] + ([ucall([9, 8], "2"), bcall] if graph == "diamond-direct" else [])
+        elif graph == "util-then-a":
+            files = {"a.xbb": a, "util.xbb": util}
+            incs = ["util.xbb", "a.xbb"]
+            items = [ucall([9, 8], "2"), acall, ucall([8, 9])]
+        elif graph == "a-then-util":
+            files = {"a.xbb": a, "util.xbb": util}
+            incs = ["a.xbb", "util.xbb"]
+            items = [acall, ucall([9, 8], "2"), acall]
+        elif graph == "b-includes-a":
+            b2 = dict(b, includes=["a.xbb", "util.xbb"], items=[("stmt", "Aa", None, [], [N("1"), N("0")], "sq")] + b["items"])
+            files = {"a.xbb": a, "b.xbb": b2, "util.xbb": util}
+            incs = ["a.xbb", "b.xbb"]
+            items = [bcall, acall]
+        elif graph == "diamond-spellings":
+            a2 = dict(a, includes=["../util.xbb"])
+            b2 = dict(b, includes=["./util.xbb"])
+            files = {"sub/a.xbb": a2, "b.xbb": b2, "util.xbb": util}
+            incs = ["sub/a.xbb", "b.xbb"]
+            items = [acall, bcall]
+        elif graph == "same-string-different-files":
+            u1 = sub_ast("Util", [1, 0], np_)
+            u2 = dict(sub_ast("Vtil", [0, 1], np_))
+            b2 = dict(b, items=[call("Vtil", np_, [0, 1], ("-1.5", "3")), ("stmt", "R", None, [], [N("1")], "none")])
+            files = {"x/a.xbb": a, "x/util.xbb": u1, "y/b.xbb": b2, "y/util.xbb": u2}
+            lib[("Aa", "util.xbb")] = u1
+            lib[("Bb", "util.xbb")] = u2
+            incs = ["x/a.xbb", "y/b.xbb"]
+            items = [acall, bcall, acall]
+        elif graph == "three-levels-shared-leaf":
+            top = dict(name="Top", version="1.0", includes=["a.xbb", "util.xbb"], items=[("stmt", "Aa", None, [], [N("1"), N("0")], "sq"), ucall([0, 1], "4")])
+            files = {"a.xbb": a, "top.xbb": top, "util.xbb": util, "b.xbb": b}
+            incs = ["b.xbb", "top.xbb"]
+            items = [("stmt", "Top", None, [], [N("4"), N("5")], "sq"), bcall, acall]
+        for rel, ast_ in files.items():
+            F.write(os.path.join("proj", rel), lang.render(ast_))
+        for rel, ast_ in files.items():
+            lib.setdefault(rel, ast_)
+        lib.setdefault("util.xbb", util)
+        lib.setdefault("../util.xbb", util)
+        lib.setdefault("./util.xbb", util)
+        lib.setdefault("a.xbb", a)
+        main = dict(name="M", version="1.0", includes=incs, items=items)
+        mp = F.write("proj/main.xbb", lang.render(main))
+        cwd = {"scriptdir": os.path.dirname(mp), "root": "/", "unrelated": os.path.join(F.root, "proj", "y2")}[cwdsel]
+        os.makedirs(cwd, exist_ok=True)
+        os.chdir(cwd)
+        arg = mp if argstyle == "abs" else os.path.relpath(mp, cwd)
+        r = judge(main, lib, arg)
+        return None if r is None else ("C07/include-graph-%s" % r[0], "graph=%s params=%d cwd=%s arg=%s: %s" % (graph, np_, cwdsel, argstyle, r[1]))
+    finally:
+        os.chdir("/")
+        F.clean()
+
+
+FAM = {"A": case_A, "B": case_B, "N": case_N, "F": case_F, "D": case_D}
 
 
 @common.guarded("C07")
@@ -272,6 +405,11 @@ def build(ctx, base):
         if depth == 1 and direct != "none":
             continue
         cases.append(("N", (base, depth, direct, cwdsel, argstyle, tmpl)))
+    for k in (2, 3):
+        for fwd, mid_names, main_kind in itertools.product(FWD[k], MID_NAMES[k], MAIN_KINDS):
+            cases.append(("F", (base, k, fwd, mid_names, main_kind)))
+    for graph, np_, cwdsel, argstyle in itertools.product(GRAPHS, (0, 1), ("scriptdir", "root", "unrelated"), ("abs", "rel")):
+        cases.append(("D", (base, graph, np_, cwdsel, argstyle)))
     return cases
 
 
@@ -291,7 +429,9 @@ def run(ctx):
     cov = {"evaluations": len(cases), "distinct_nontrivial": len(cases),
            "rule": "A: included programs over every 1-/2-/3-subset of {0,1,2,3,8,9,16,17} x every order of first use x 0/1/2 parameters x call-site patterns (1-3 calls, identical / different mode lists, in a loop, "
                    "interleaved with statements, with a second subroutine); B: 6 directory layouts x {single, duplicate, differently spelt duplicate} include line x 4 working directories x {absolute, relative} load argument x {plain, template}; "
-                   "N: nesting depth 1-3 with the inner subroutine also called directly {never, before, after, both} x 4 cwds x 2 argument styles x {plain, template}. every case calls an included program (non-trivial); distinct by construction",
+                   "N: nesting depth 1-3 with the inner subroutine also called directly {never, before, after, both} x 4 cwds x 2 argument styles x {plain, template}; "
+                   "F: two levels of templates, the middle one handing its 2-3 parameters on to the inner one in every pattern (straight, crossed, cyclic, repeated, inside expressions, mixed with constants) x parameter names shared / rotated / disjoint between the levels x main program numeric / template / crossed; "
+                   "D: include graphs that are not chains (diamond, shared leaf at several levels, a file included directly and indirectly in both orders, differently spelt paths to one file, one path string naming different files) x plain/template x 3 cwds x 2 argument styles. every case calls an included program (non-trivial); distinct by construction",
            "samples": [repr((c[0],) + tuple(c[1][1:])) for c in common.sample(cases, 5)], "exhaustive": True, "by_family": dict(fam),
            "cases_where_set_iteration_order_is_not_increasing": unsorted_iter}
     return {"coverage": cov, "violations": Vs.records(),
